@@ -139,7 +139,18 @@ prop('C02', level='other', design_ref='DESIGN.md section 6 (C02)',
      not_decided=['History.add_unflushed / flush / advance_block history clause not under deductive contract yet'],
      assumptions=[])
 
-for _pid in ['C01', 'C03', 'C04', 'C05', 'C07', 'C08', 'C09', 'C10', 'C11', 'C14']:
+prop('C10', level='other', design_ref='DESIGN.md section 6 (C10)',
+     technique='deductive verification of the cache-invalidation components (VCs from real source, z3); composition over '
+               'schedules written in DESIGN.md, not machine-checked',
+     text='_notify_sessions evicts every touched script hash from the history cache regardless of the height; limited_history '
+          'cache coherence (C17).  Quiescence over all interleavings is not decided by contracts.',
+     note='Components only: the end-to-end statement quantifies over schedules of five tasks (A-FIFO assumed).',
+     explanation='Component obligations; composition written, not mechanised.',
+     not_decided=['whole-system interleavings; by-height caches epoch argument (tx_hashes_at_blockheight) not yet under contract',
+                  'retry loops of DB.limited_history / all_utxos (termination)'],
+     assumptions=['A-FIFO: the task woken by backed_up_event runs before another block completes'])
+
+for _pid in ['C01', 'C03', 'C04', 'C05', 'C07', 'C08', 'C09', 'C11', 'C14']:
     na(_pid, 'contracts for this property are not yet built in this round (planned: DESIGN.md section 6); nothing is claimed')
 na('C06', 'quantifies over cancellation instants of an asyncio task while worker-thread jobs keep running: not '
           'expressible as pre/postconditions of functions in a sequential or cooperative model (DESIGN.md section 6, C06)')
